@@ -26,6 +26,23 @@ theorem core_name {d d' : Device} (h : d'.core = d.core) : d'.name = d.name :=
 theorem core_source {d d' : Device} (h : d'.core = d.core) : d'.source = d.source :=
   (congrArg Device.source h : d'.core.source = d.core.source)
 
+theorem core_prodLoaded {d d' : Device} (h : d'.core = d.core) : d'.prodLoaded = d.prodLoaded :=
+  (congrArg Device.prodLoaded h : d'.core.prodLoaded = d.core.prodLoaded)
+theorem core_prod {d d' : Device} (h : d'.core = d.core) : d'.prod = d.prod :=
+  (congrArg Device.prod h : d'.core.prod = d.core.prod)
+theorem core_tx {d d' : Device} (h : d'.core = d.core) : d'.tx = d.tx :=
+  (congrArg Device.tx h : d'.core.tx = d.core.tx)
+theorem core_rx {d d' : Device} (h : d'.core = d.core) : d'.rx = d.rx :=
+  (congrArg Device.rx h : d'.core.rx = d.core.rx)
+theorem core_confI {d d' : Device} (h : d'.core = d.core) : d'.confI = d.confI :=
+  (congrArg Device.confI h : d'.core.confI = d.core.confI)
+theorem core_manI {d d' : Device} (h : d'.core = d.core) : d'.manI = d.manI :=
+  (congrArg Device.manI h : d'.core.manI = d.core.manI)
+theorem core_inst1 {d d' : Device} (h : d'.core = d.core) : d'.inst1 = d.inst1 :=
+  (congrArg Device.inst1 h : d'.core.inst1 = d.core.inst1)
+theorem core_inst2 {d d' : Device} (h : d'.core = d.core) : d'.inst2 = d.inst2 :=
+  (congrArg Device.inst2 h : d'.core.inst2 = d.core.inst2)
+
 /-- the two entry views agree up to bookkeeping -/
 def SameCore (f g : Nat → Option Device) : Prop := ∀ j, (g j).map Device.core = (f j).map Device.core
 
